@@ -15,7 +15,7 @@ import numpy as np
 from .. import bus, cover, gen, monitors
 
 LEVEL = 'exploration'
-JOBS = {'quick': 1, 'thorough': 16}
+JOBS = {'quick': 2, 'thorough': 16}
 REQUIRED_MONITORS = ('rotation_contract', 'frame_contract', 'rot_relations')
 REQUIRED_CLASSES = ('call:keyword-arguments', 'axis-length:unit', 'axis-length:almost-unit', 'frame:collinear', 'frame:generic', 'triple:collinear-z', 'triple:collinear-int',
                     'triple:collinear-moved', 'triple:coincident-middle', 'embedded:exchange-map',
